@@ -382,3 +382,11 @@ case(
     loops={"for x in xs": Loop(index="i", invariants={"n": "len(r) == i"})},
     gen=lambda rng: {"xs": ints(rng)},
 )
+
+# ---- old() inside a `raises` condition (a pre-state formula: old(e) is e), also with a bound variable (round 4) ------------------
+case(
+    B + "lookup", name="old-in-raises", params={"d": Dict(STR, INT), "k": STR}, returns=INT,
+    raises={"KeyError": "k not in old(d) or not any(old(d[j]) == d[j] and j == k for j in d)"}, ensures={"v": "result == d[k]"},
+    canaries={"zero": "result == 0"},
+    gen=lambda rng: {"d": {"a": 1, "b": 2}, "k": rng.choice(["a", "b", "z"])},
+)
